@@ -7,6 +7,8 @@ CONSTANTS
   Dmarcs = {"off"}
   Only1On = FALSE
   WithRemote = TRUE
+  Kinds = {"pipe"}
+  ModOn = FALSE
   Lazy = TRUE
   Devs = {}
   Gen = FALSE
